@@ -242,3 +242,11 @@ impl Args {
         self.opt(key).map(|s| s.parse().unwrap_or_else(|_| tool_error(&format!("bad --{key}")))).unwrap_or(default)
     }
 }
+
+/// Record the case about to be executed, so that the driver can attribute an abort of the whole
+/// process (allocation failure, stack overflow) to it.  No-op unless VERIF_CURRENT is set.
+pub fn current_case(v: &Value) {
+    if let Ok(p) = std::env::var("VERIF_CURRENT") {
+        let _ = std::fs::write(p, serde_json::to_string(v).unwrap_or_default());
+    }
+}
